@@ -1,7 +1,191 @@
-(* C01 - placeholder while the model is being validated; replaced by the real statements. *)
-From Coq Require Import ZArith List Bool.
-From Urwid Require Import WidgetDims.
+(* C01 - Every widget renders a canvas of exactly the size its container asked for.
+   Only statements here; the proofs are in Proofs/WidgetDimsProofs.v, the model in Model/WidgetDims.v.
+
+   The model gives dimension semantics (sizing / rows / pack / render -> cols, rows, cursor, rect) to
+   trees of Text-like leaves (arbitrary functions of width and focus), AttrMap (and LineBox's
+   delegation), BoxAdapter, Padding, Filler, Pile, Columns, Frame and Overlay, mirroring the code.
+   Two outcomes of the model are markers, not failures of the widget that is rendered:
+     EStarved - some widget was handed a size with a component <= 0 (no room left by its container),
+     ECut     - some widget returned a canvas whose cursor lies outside it (canvas.py trims rows and
+                columns but only translates the cursor: the C01 known finding "cursor outside after trim").
+   [soft e] says e is one of the two.  The harness flags exactly these situations on the implementation. *)
+From Coq Require Import ZArith List Bool Lia.
+Import ListNotations.
+From Urwid Require Import WidgetDims WidgetDimsProofs.
 Open Scope Z_scope.
-Theorem c01_stub : forall c r, cc (blank c r) = c.
-Proof. reflexivity. Qed.
-Print Assumptions c01_stub.
+
+Definition WellFormed (w : widget) : Prop := wf_b w = true.
+
+(* ---- the full statement of the property over the model: every well-formed tree, every size that is
+        valid for a sizing mode the tree reports, both focus values ---- *)
+Definition render_contract_full : Prop :=
+  forall w sz f, leaves_ok w -> WellFormed w -> valid_for (m_sizing (denote w)) sz ->
+    match m_render (denote w) sz f with
+    | Ok d => meets (denote w) sz f d      (* box: (c, r); flow: (c, rows c); fixed: pack(()); rect; cursor inside *)
+    | Err e => soft e
+    end.
+
+(* ---- what is proved: box and flow sizes, trees of any depth built from leaves, AttrMap/LineBox
+        delegation, BoxAdapter, Padding (given / pack / relative width), Filler (pack / given / relative
+        height) and Pile (given / pack / weight items), by structural induction on the tree.
+        Not covered: fixed sizing, Columns, Frame, Overlay, clip Padding (see _refuted below for the
+        parts of the full statement that are false of the faithful model). ---- *)
+Theorem render_contract_partial :
+  forall w sz f, leaves_ok w -> WellFormed w -> proved_fragment w = true ->
+    sz <> SFixed -> valid_for (m_sizing (denote w)) sz ->
+    match m_render (denote w) sz f with
+    | Ok d => meets (denote w) sz f d
+    | Err e => soft e
+    end.
+Proof.
+  intros w sz f Hl Hw Hf Hn Hv.
+  exact (render_contract_from_good (denote w) sz f (contract_by_structural_induction w Hw Hf Hl) Hn Hv).
+Qed.
+Print Assumptions render_contract_partial.
+
+(* the same induction also gives what containers rely on: rows() is positive and pack((c,)) agrees with it *)
+Theorem rows_and_pack_partial :
+  forall w c f, leaves_ok w -> WellFormed w -> proved_fragment w = true ->
+    s_flow (m_sizing (denote w)) = true -> 1 <= c ->
+    match m_rows (denote w) c f with
+    | Ok h => 1 <= h /\ exists wd, m_pack (denote w) (SFlow c) f = Ok (wd, h)
+    | Err e => soft e
+    end.
+Proof.
+  intros w c f Hl Hw Hf Hs Hc.
+  pose proof (contract_by_structural_induction w Hw Hf Hl) as G.
+  pose proof (g_rows _ G c f Hs Hc) as R. pose proof (g_pack _ G c f Hs Hc) as P.
+  destruct (m_rows (denote w) c f); auto.
+Qed.
+Print Assumptions rows_and_pack_partial.
+
+(* the hypothesis about leaves is implied by a plain condition on what the leaf reports *)
+Theorem leaf_contract_sufficient : forall d, leaf_contract d -> Good (leaf_sem d).
+Proof. exact leaf_good. Qed.
+Print Assumptions leaf_contract_sufficient.
+
+(* the per-constructor lemmas, for arbitrary children satisfying the contract *)
+Theorem attrmap_contract : forall s, Good s -> Good (attr_sem s).
+Proof. exact attr_good. Qed.
+Theorem boxadapter_contract : forall s h, Good s -> s_box (m_sizing s) = true -> 1 <= h -> Good (boxadapter_sem s h).
+Proof. exact boxadapter_good. Qed.
+Theorem padding_contract : forall s align wt mw l r,
+  Good s -> wt <> WClip -> padding_child_ok (m_sizing s) wt = true -> 0 <= l -> 0 <= r ->
+  Good (padding_sem s align wt mw l r).
+Proof. exact padding_good. Qed.
+Theorem filler_contract : forall s va ht mh t b,
+  Good s -> filler_child_ok (m_sizing s) ht = true -> 0 <= t -> 0 <= b -> Good (filler_sem s va ht mh t b).
+Proof. exact filler_good. Qed.
+Theorem pile_contract : forall l fp,
+  l <> [] -> Forall pgood l -> Forall (pile_ok (pile_sizing l)) l -> Good (pile_sem l fp).
+Proof. exact pile_good. Qed.
+Print Assumptions pile_contract.
+
+(* ---- concrete leaves (they also show that the leaf hypothesis is satisfiable) ---- *)
+(* a one-line text *)
+Definition line_leaf : leafdata :=
+  mkLeaf (mkS false true true)
+    (fun _ c => Ok (mkFE (Ok 1) (Ok (1, 1)) (Ok (mkC c 1 None true))))
+    (fun _ => Ok (1, 1)) (fun _ => Ok (mkC 1 1 None true)) (fun _ _ _ => Err EValue).
+(* Text("ab cd"): 1 row from 5 columns on, 2 rows from 2, 4 rows at 1 column *)
+Definition wrap_rows_of (c : Z) : Z := if c <? 2 then 4 else if c <? 5 then 2 else 1.
+Definition wrap_leaf : leafdata :=
+  mkLeaf (mkS false true true)
+    (fun _ c => Ok (mkFE (Ok (wrap_rows_of c)) (Ok (Z.min c 5, wrap_rows_of c)) (Ok (mkC c (wrap_rows_of c) None true))))
+    (fun _ => Ok (5, 1)) (fun _ => Ok (mkC 5 1 None true)) (fun _ _ _ => Err EValue).
+(* an Edit: one line, cursor at the start when focused *)
+Definition edit_leaf : leafdata :=
+  mkLeaf (mkS false true false)
+    (fun f c => Ok (mkFE (Ok 1) (Ok (c, 1)) (Ok (mkC c 1 (if f then Some (0, 0) else None) true))))
+    (fun _ => Err EWidget) (fun _ => Err EValue) (fun _ _ _ => Err EValue).
+(* SolidFill *)
+Definition solid_leaf : leafdata :=
+  mkLeaf (mkS true false false)
+    (fun _ _ => Err EOther) (fun _ => Err EWidget) (fun _ => Err EValue)
+    (fun c r _ => Ok (mkC c r None true)).
+
+Lemma line_leaf_ok : leaf_contract line_leaf.
+Proof.
+  split; [|intros; discriminate]. intros c f _ Hc.
+  eexists; exists 1, 1. cbn. repeat split; auto; lia.
+Qed.
+Lemma wrap_leaf_ok : leaf_contract wrap_leaf.
+Proof.
+  split; [|intros; discriminate]. intros c f _ Hc.
+  eexists; exists (wrap_rows_of c), (Z.min c 5). cbn. unfold wrap_rows_of.
+  repeat split; auto; destruct (c <? 2); try destruct (c <? 5); lia.
+Qed.
+Lemma edit_leaf_ok : leaf_contract edit_leaf.
+Proof.
+  split; [|intros; discriminate]. intros c f _ Hc.
+  eexists; exists 1, c. cbn. repeat split; auto; try lia. unfold inside; destruct f; cbn; auto; lia.
+Qed.
+Lemma solid_leaf_ok : leaf_contract solid_leaf.
+Proof.
+  split; [intros; discriminate|]. intros c r f _ Hc Hr. cbn. repeat split; auto.
+Qed.
+
+(* ---- the full statement is FALSE of the faithful model: two witnesses, both replayed on the
+        implementation by corpus/C01 (known findings) ---- *)
+(* Padding(Text("a"), 'left', 'pack', min_width=2, right=1) as a fixed widget: pack(()) = (3, 1) but
+   render(()) is 2 columns wide *)
+Definition padding_fixed_witness : widget := WPadding (WLeaf line_leaf) 0 WPack (Some 2) 0 1.
+Theorem render_contract_full_refuted : ~ render_contract_full.
+Proof.
+  intros H.
+  specialize (H padding_fixed_witness SFixed false (leaf_good _ line_leaf_ok) eq_refl eq_refl).
+  vm_compute in H. destruct H as [H _]. discriminate.
+Qed.
+Print Assumptions render_contract_full_refuted.
+
+Example padding_fixed_witness_values :
+  m_pack (denote padding_fixed_witness) SFixed false = Ok (3, 1)
+  /\ m_render (denote padding_fixed_witness) SFixed false = Ok (mkC 2 1 None true).
+Proof. vm_compute. split; reflexivity. Qed.
+
+(* Overlay(Text("ab cd"), SolidFill, 'left', 1, 'top', 'pack').render((7, 1)): the height is asked at 7
+   columns (1 row), the top widget is rendered 1 column wide (4 rows): ValueError *)
+Definition overlay_witness : widget :=
+  WOverlay (WLeaf wrap_leaf) (WLeaf solid_leaf) (mkOv 0 (WGiven 1) 0 HPack None None 0 0 0 0).
+Theorem render_contract_full_refuted_overlay :
+  exists w sz f, leaves_ok w /\ WellFormed w /\ valid_for (m_sizing (denote w)) sz
+                 /\ m_render (denote w) sz f = Err EValue.
+Proof.
+  exists overlay_witness, (SBox 7 1), false.
+  split; [split; [apply leaf_good, wrap_leaf_ok | apply leaf_good, solid_leaf_ok]|].
+  split; [reflexivity|]. split; [cbn; lia|]. vm_compute. reflexivity.
+Qed.
+Print Assumptions render_contract_full_refuted_overlay.
+
+(* the ECut marker really occurs inside the proved fragment: a box Pile whose given rows overflow
+   cuts the focused Edit away and keeps its cursor at row 5 of a 1-row canvas *)
+Definition cut_witness : widget :=
+  WPile (PCons (WLeaf solid_leaf) KGiven 5 (PCons (WLeaf edit_leaf) KPack 0 PNil)) 1.
+Example cursor_cut_happens :
+  wf_b cut_witness = true /\ proved_fragment cut_witness = true
+  /\ m_render (denote cut_witness) (SBox 1 1) true = Err ECut
+  /\ m_render (denote cut_witness) (SBox 1 1) false = Ok (mkC 1 1 None true).
+Proof. vm_compute. repeat split; reflexivity. Qed.
+
+(* ---- non-vacuity: a tree of depth 4 inside the fragment, all hypotheses hold, and the model computes ---- *)
+Definition sample_tree : widget :=
+  WPile
+    (PCons (WPadding (WLeaf wrap_leaf) 50 (WRelative 50) None 1 0) KPack 0
+    (PCons (WFiller (WAttr (WLeaf edit_leaf)) 50 HPack None 0 1) KWeight 2
+    (PCons (WBoxAdapter (WPile (PCons (WLeaf solid_leaf) KWeight 1 PNil) 0) 2) KPack 0
+    (PCons (WLeaf solid_leaf) KGiven 1 PNil)))) 1.
+
+Example sample_tree_in_scope :
+  WellFormed sample_tree /\ proved_fragment sample_tree = true /\ leaves_ok sample_tree
+  /\ m_sizing (denote sample_tree) = mkS true true true.
+Proof.
+  split; [reflexivity|]. split; [reflexivity|]. split; [|reflexivity].
+  cbn. repeat split;
+    first [apply leaf_good, wrap_leaf_ok | apply leaf_good, edit_leaf_ok | apply leaf_good, solid_leaf_ok].
+Qed.
+
+Example sample_tree_renders :
+  m_render (denote sample_tree) (SBox 10 9) true = Ok (mkC 10 9 (Some (0, 2)) true)
+  /\ m_render (denote sample_tree) (SBox 3 2) false = Ok (mkC 3 2 None true)
+  /\ m_render (denote sample_tree) (SBox 1 4) false = Err EStarved.
+Proof. vm_compute. repeat split; reflexivity. Qed.
